@@ -31,6 +31,8 @@ IncsSmall == {<<0, <<1>>>>, <<1, <<1, 2>>>>, <<2, <<2, 1>>>>}
 (* an included file that itself includes a file: <<outer offset, inner offset, level of the inner file's heading, level of a   *)
 (* heading of the outer file after the inner include>>                                                                        *)
 IncsNested == {<<1, 0, 1, 2>>, <<2, 1, 1, 1>>, <<0, 2, 2, 1>>, <<1, 1, 2, 3>>}
+(* offsets that push a heading to level 10 and beyond (levels are numbers, not digits) *)
+IncsDeep  == {<<5, <<5, 6>>>>, <<4, <<6, 5>>>>, <<6, <<4, 1>>>>}
 IncsMore  == IncsSmall \cup {<<1, <<3>>>>, <<0, <<2, 2>>>>, <<3, <<1, 1>>>>}
 NoIncs    == {}
 AllKinds  == {"quote", "item", "note"}
